@@ -118,6 +118,14 @@ impl CRS {
     }
 }
 
+#[cfg(feature = "verif")]
+impl CRS {
+    /// Verification hook: number of get_vertex calls made on this instance
+    pub fn verif_invocations(&self) -> usize {
+        self.invocations
+    }
+}
+
 impl Default for CRS {
     fn default() -> Self {
         Self::new().expect("Failed to create CRS")
